@@ -165,6 +165,16 @@ SCHEMAS = {
                    A('R121', 'C3', ['P_Id'], '1C', 'P', ['Id'], '1')],
         'uniques': {'P': [U('I1', 'Id')], 'C1': [U('I1', 'Id')], 'C2': [U('I1', 'Id')], 'C3': [U('I1', 'Id')]},
     },
+    # two associations refer to one class through different identifiers, with the same referential attribute name
+    'two_identifiers': {
+        'classes': ['Part', 'Stock', 'Label'],
+        'attrs': {'Part': [at('Id', ID), at('Code', 'STRING')],
+                  'Stock': [at('Id', ID), at('Part_Ref', ID)],
+                  'Label': [at('Id', ID), at('Part_Ref', 'STRING')]},
+        'assocs': [A('R1', 'Stock', ['Part_Ref'], 'MC', 'Part', ['Id'], '1C'),
+                   A('R2', 'Label', ['Part_Ref'], 'MC', 'Part', ['Code'], '1C')],
+        'uniques': {'Part': [U('I1', 'Id'), U('I2', 'Code')], 'Stock': [U('I1', 'Id')], 'Label': [U('I1', 'Id')]},
+    },
     # phrases on one end only of a non-reflexive association
     'phrase_ends': {
         'classes': ['P', 'D'],
